@@ -114,7 +114,8 @@ def heavy_hitters(prog, rep):
             rep.bad("C17.stored-equals-returned", where, f"returns {nshow(p.exit[1])}", "add_alt does not return the sketch's estimate", f.where(p.exit[2]))
             good = False
         conds = [strip_epochs(c) for c in all_conds(p)]
-        room = path_orderings(conds, size, limit)
+        # the number of tracked keys: the cached count or len(table) itself, whichever the code consults
+        room = path_orderings(conds, size, limit) & path_orderings(conds, ("call", ("g", "len"), (table,), ()), limit)
         member = None
         for c in p.conds:
             a = strip_epochs(c.atom)
@@ -178,7 +179,8 @@ def heavy_hitters(prog, rep):
         if "room" in seen and sets and not pops and room <= {LT}:
             isnew = any(strip_epochs(c.atom) == ("cmp", "is", ("call", ("m", table, "get"), (key, C(None)), ()), C(None)) and c.truth for c in p.conds)
             refreshed = any(e.kind == "setfield" and e.name == "_HeavyHitters__top_x_size" for e in p.events)
-            if (isnew or member is False) and not refreshed:
+            uses_cached = any(n == size for c in conds for n in walk(c))  # (no cache to refresh when len(table) itself is consulted)
+            if (isnew or member is False) and not refreshed and uses_cached:
                 rep.bad("C17.hitters-bookkeeping", where, "size not refreshed", "a new key is recorded without refreshing the tracked-key count", f.where())
                 good = False
     if good:
